@@ -58,15 +58,26 @@ pub fn make_docs(rsa_fixture: &[u8], thorough: bool) -> Vec<Doc> {
 	ec_doc(openssl::nid::Nid::SECP384R1, "p384", &mut docs);
 	ec_doc(openssl::nid::Nid::SECP521R1, "p521", &mut docs);
 	let mut rsa_keys: Vec<openssl::rsa::Rsa<Private>> = vec![PKey::private_key_from_pkcs8(rsa_fixture).unwrap().rsa().unwrap()];
-	for bits in if thorough { vec![2048u32, 3072, 4096] } else { vec![3072] } {
+	// fixed keys of the larger sizes both back ends document (up to 8192 bits), read from
+	// harness/fixtures; fresh ones as well in the thorough tier
+	for f in ["rsa3072.pk8", "rsa4096.pk8", "rsa8192.pk8"] {
+		if let Ok(der) = std::fs::read(format!("/verif/harness/fixtures/{}", f)) {
+			if let Ok(k) = PKey::private_key_from_pkcs8(&der).and_then(|k| k.rsa()) {
+				rsa_keys.push(k);
+			}
+		}
+	}
+	for bits in if thorough { vec![2048u32, 3072, 4096] } else { vec![] } {
 		rsa_keys.push(openssl::rsa::Rsa::generate(bits).unwrap());
 	}
 	for rsa in rsa_keys {
+		// above ring's 4096-bit limit for private keys: another row of the acceptance table
+		let kty: &'static str = if rsa.size() * 8 > 4096 { "rsaBig" } else { "rsa" };
 		let public = rsa.public_key_to_der_pkcs1().unwrap();
 		let pkcs1 = rsa.private_key_to_der().unwrap();
 		let pk = PKey::from_rsa(rsa).unwrap();
-		docs.push(Doc { origin: "openssl".into(), fmt: "pkcs8v1", kty: "rsa", der: pk.private_key_to_pkcs8().unwrap(), public: public.clone() });
-		docs.push(Doc { origin: "openssl".into(), fmt: "pkcs1", kty: "rsa", der: pkcs1, public });
+		docs.push(Doc { origin: "openssl".into(), fmt: "pkcs8v1", kty, der: pk.private_key_to_pkcs8().unwrap(), public: public.clone() });
+		docs.push(Doc { origin: "openssl".into(), fmt: "pkcs1", kty, der: pkcs1, public });
 	}
 	// ring directly: Ed25519 v2 (with public key), ECDSA
 	{
@@ -168,7 +179,7 @@ fn check_loaded(s: &mut Suite, what: &str, doc: &Doc, k: &KeyPair) {
 		Ok(pk) => {
 			let want = match doc.kty {
 				"ed25519" => openssl::pkey::Id::ED25519,
-				"rsa" => openssl::pkey::Id::RSA,
+				"rsa" | "rsaBig" => openssl::pkey::Id::RSA,
 				_ => openssl::pkey::Id::EC,
 			};
 			if pk.id() != want {
@@ -197,7 +208,7 @@ fn check_loaded(s: &mut Suite, what: &str, doc: &Doc, k: &KeyPair) {
 					s.rep.violate("C11:spki-roundtrip-bytes", "SubjectPublicKeyInfo::from_der recovers different key bytes", hex(&spki));
 				}
 				// same SPKI AlgorithmIdentifier; equal to the key's algorithm when the key type determines it
-				if doc.kty != "rsa" && sp.algorithm() != k.algorithm() {
+				if !doc.kty.starts_with("rsa") && sp.algorithm() != k.algorithm() {
 					s.rep.violate("C11:spki-roundtrip-alg", "SubjectPublicKeyInfo::from_der recovers another algorithm", hex(&spki));
 				}
 				format!("(ok {})", alg_name(sp.algorithm()))
@@ -256,7 +267,7 @@ fn check_export(s: &mut Suite, what: &str, doc: &Doc, k: &KeyPair) {
 	for (entry, r) in loads {
 		match r {
 			Ok(Ok(k2)) => {
-				if k2.public_key_raw() != k.public_key_raw() || (k2.algorithm() != k.algorithm() && (doc.kty != "rsa" || entry.ends_with("sign_algo"))) {
+				if k2.public_key_raw() != k.public_key_raw() || (k2.algorithm() != k.algorithm() && (!doc.kty.starts_with("rsa") || entry.ends_with("sign_algo"))) {
 					s.rep.violate(&format!("C11:export-reloads:{}", doc.fmt), "the export of a loaded key reloads as a different key or algorithm", format!("entry={} {}", entry, ctx_txt));
 				}
 			},
@@ -331,7 +342,7 @@ pub fn run(ctx: &mut Ctx) -> Report {
 				let again = KeyPair::try_from(k.serialize_der());
 				match again {
 					Ok(k2) => {
-						if k2.public_key_raw() != k.public_key_raw() || k2.algorithm() != k.algorithm() && doc.kty != "rsa" {
+						if k2.public_key_raw() != k.public_key_raw() || k2.algorithm() != k.algorithm() && !doc.kty.starts_with("rsa") {
 							s.rep.violate("C11:roundtrip", "serialize_der then load yields a different key or algorithm", line.clone());
 						}
 					},
@@ -341,7 +352,7 @@ pub fn run(ctx: &mut Ctx) -> Report {
 				// reports and, for RSA, as each of the three RSA algorithms alike
 				let exported = k.serialize_der();
 				if let Ok(pk) = rustls_pki_types::PrivateKeyDer::try_from(exported.clone()) {
-					let told: Vec<&'static SignatureAlgorithm> = if doc.kty == "rsa" { vec![&PKCS_RSA_SHA256, &PKCS_RSA_SHA384, &PKCS_RSA_SHA512] } else { vec![k.algorithm()] };
+					let told: Vec<&'static SignatureAlgorithm> = if doc.kty.starts_with("rsa") { vec![&PKCS_RSA_SHA256, &PKCS_RSA_SHA384, &PKCS_RSA_SHA512] } else { vec![k.algorithm()] };
 					for a in told {
 						match std::panic::catch_unwind(std::panic::AssertUnwindSafe(|| KeyPair::from_der_and_sign_algo(&pk, a))) {
 							Ok(Ok(k3)) => {
@@ -413,7 +424,7 @@ pub fn run(ctx: &mut Ctx) -> Report {
 				// a document this build loads by itself, told an algorithm of its own key type through
 				// the entry point that takes any encoding: it fits, so it must load
 				let fits = match (doc.kty, an) {
-					("rsa", "rsaSha256" | "rsaSha384" | "rsaSha512") => true,
+					("rsa" | "rsaBig", "rsaSha256" | "rsaSha384" | "rsaSha512") => true,
 					("ed25519", "ed25519") | ("p256", "ecdsaP256") | ("p384", "ecdsaP384") | ("p521", "ecdsaP521") => true,
 					_ => false,
 				};
